@@ -197,6 +197,7 @@ def build_call(c):
 def check_case(ctx, c, local_tz=None):
     import dateparser
 
+    ctx.remember(check_case, c, local_tz)
     cands = expected_candidates(c, local_tz)
     if not cands:
         ctx.count("rejected:ambiguous-or-unresolvable")
@@ -281,6 +282,7 @@ def run_shard(ctx, desc):
                 if c["kind"] == "abs_strtz":
                     c["kind"] = "abs"
                 check_case(ctx, c, local_tz=desc["tz"])
+        ctx.reask()
     finally:
         ac.stop()
     for k, v in ac.counts.items():
